@@ -215,6 +215,12 @@ def build_scenarios(prop, tier, rnd):
             ops = [o for o in ops if o["op"] != "reopen"] if i % 2 else ops
             cfg = {"kt": ["string", "bytes", "i64", "string_big"][i % 4], "n": [3, 10000, 2][i % 3], "sync": True}
             add(ops, cfg, {"mode": "damage", "stride": (3 if q else 1), "flipvals": ([255] if q else [1, 128, 255])}, chunk=i)
+        # crash images in which the un-checkpointed records span two segment files
+        two = [[{"op": "put", "k": 1, "c": "A"}, {"op": "put", "k": 2, "c": "B"}, {"op": "put", "k": 3, "c": "A"}],
+               [{"op": "put", "k": 1, "c": "A"}, {"op": "del", "k": 1}, {"op": "put", "k": 2, "c": "B"}, {"op": "put", "k": 3, "c": "E"}]]
+        for i, ops in enumerate(two if q else two + walks[:20]):
+            add(ops, {"kt": ["string", "bytes"][i % 2], "n": [2, 3][i % 2] if i < 2 else 2, "sync": True},
+                {"mode": "damage", "crash": "two_segments", "stride": (2 if q else 1), "flipvals": [255]}, chunk=i)
     elif prop == "C14":
         walks = random_walks(10 if q else 120, 5 if q else 8, rnd, keys=(1, 2), contents=("A", "B", "G"))
         fixed = [[{"op": "put", "k": 1, "c": "A"}, {"op": "put", "k": 1, "c": "B"}, {"op": "put", "k": 2, "c": "B"}, {"op": "del", "k": 2}],
@@ -262,7 +268,7 @@ def run_seq_check(prop, tier, replay=None):
         mc = run_mc(tier, PROP_INV[prop])
         log(f"[{prop}] MCSteps: {mc['states']} distinct states, violated={mc['violated']}")
         scen = build_scenarios(prop, tier, rnd)
-    need_shim = any(s["env"]["mode"] in ("crash", "power", "fault") for s in scen)
+    need_shim = any(s["env"]["mode"] in ("crash", "power", "fault") or s["env"].get("crash") for s in scen)
     log(f"[{prop}] {len(scen)} scenarios")
     # 2. the code: run, record
     t1 = time.time()
